@@ -122,6 +122,12 @@ PROPS["C04"] = {
           "CSRC and extension block stay in clear in the header image and are authenticated; unprotect returns header, payload", bound="12-byte header + 1 CSRC + 4-byte one-byte-header extension block, 4 payload bytes", timeout=1800),
         K("round trip AES_CM (8 B payload)", "c04_roundtrip_sha80_p8", "thorough", "bounded", ["SrtpContext::protect", "SrtpContext::unprotect"], "same law, larger payload", bound="12-byte header, 8 payload bytes", timeout=1800),
         K("round trip SHA1_32 (4 B payload, 4 B padding)", "c04_roundtrip_sha32_p4_pad4", "thorough", "bounded", ["SrtpContext::protect", "SrtpContext::unprotect"], "same law under the 32-bit tag profile", bound="12-byte header, 4 payload bytes, padding 4", timeout=1800),
+        K("kdf == AES-CM PRF with label at byte 7 (RFC 3711 4.3)", "c04_kdf_spec", "quick", "proof", ["SrtpContext::kdf"],
+          "for every master key, salt and label: output == AES-CM keystream under the master key with IV = salt padded to 16 bytes, label XORed into byte 7 (aes/ctr substitutes: determinism only)"),
+        K("derive_keys labels 0..5 (SHA1_80)", "c04_derive_keys_labels_sha80", "quick", "proof", ["SrtpContext::derive_keys", "SrtpContext::kdf"],
+          "RTP cipher/auth/salt = kdf labels 0/1/2, RTCP = 3/4/5, lengths per profile, for every master key and salt"),
+        K("derive_keys labels (GCM)", "c04_derive_keys_labels_gcm", "thorough", "proof", ["SrtpContext::derive_keys", "SrtpContext::kdf"],
+          "same with 12-byte salts and no auth keys"),
         K("canary: estimate_roc always returns roc", "canary_estimate_roc_always_roc", "quick", "canary", ["SrtpContext::estimate_roc"],
           "false claim, must FAIL", expect="fail"),
     ],
@@ -249,6 +255,12 @@ PROPS["C03"] = {
         K("DtlsRecord::decode fields (17 B)", "c03_record_decode_fields_17", "quick", "bounded", ["DtlsRecord::decode"],
           "Ok(Some) iff valid type and declared length fits: epoch, 48-bit sequence number, version, payload recovered exactly; Ok(None) iff incomplete; Err iff unknown content type",
           bound="input 17 bytes, symbolic content (length field symbolic)", module=RCM),
+        K("create_session_crypto binds keys to roles", "c03_create_session_crypto_binds_keys_to_roles", "quick", "bounded", ["create_session_crypto"],
+          "the cached client/server write ciphers behave exactly like ciphers built from the client/server write keys (no role mix-up); keys and IVs carried over unchanged — for every key pair",
+          bound="checked through one AEAD seal per cipher (4-byte plaintext); aes-gcm substitute", module=DM, timeout=600),
+        K("expand_keys key-block order (RFC 5246 6.3)", "c03_expand_keys_block_order", "quick", "bounded", ["expand_keys", "prf_sha256"],
+          "key_block = PRF(master, \"key expansion\", server_random || client_random); client key | server key | client IV | server IV cut in that order",
+          bound="4-byte master secret, 2-byte randoms (symbolic); hmac substitute", module=DM, timeout=900),
         K("canary: gate rejects every epoch-0 record", "canary_gate_rejects_all_epoch0", "quick", "canary", ["DtlsInner::try_decrypt_record"],
           "false claim, must FAIL", expect="fail", module=DM),
     ],
@@ -334,6 +346,10 @@ PROPS["C15"] = {
         K("REMB ssrc list (3)", "c15_remb_ssrc_list_3", "thorough", "bounded", ["build_remb_body", "parse_remb_body"], "parse(build(r)) == r", bound="3 SSRC entries", module=RM, timeout=1200),
         K("FIR round trip (3 entries)", "c15_fir_roundtrip_3", "thorough", "bounded", ["build_fir_body", "parse_fir_body"], "inverse", bound="3 FIR entries", module=RM, timeout=1200),
         K("TWCC round trip (8-byte payload)", "c15_twcc_roundtrip_8", "thorough", "bounded", ["build_twcc_body", "parse_twcc_body"], "inverse", bound="8 payload bytes", module=RM, timeout=1200),
+        K("marshal_rtcp_packets: PLI layout", "c15_marshal_rtcp_pli_layout", "quick", "bounded", ["marshal_rtcp_packets", "write_rtcp_packet", "build_psfb_common"],
+          "V=2, FMT=1, PT=206, length 2, both SSRCs", bound="one PLI", module=RM),
+        K("marshal_rtcp_packets: RR + PLI compound layout", "c15_marshal_rtcp_rr_then_pli_layout", "quick", "bounded", ["marshal_rtcp_packets", "write_rtcp_packet", "build_receiver_report_body"],
+          "count field, packet types, length words, second sub-packet starts right after the first", bound="RR with one block followed by a PLI", module=RM, timeout=600),
         K("canary: report block inverse without clamping", "canary_report_block_unclamped", "quick", "canary", ["build_report_block"], "false claim, must FAIL", expect="fail", module=RM),
     ],
 }
@@ -358,6 +374,9 @@ PROPS["C16"] = {
           ["encode_stun_message", "append_raw_attribute", "update_length_field", "write_length_field"],
           "type bits for every method x class, cookie, txid; MI over exactly the preceding bytes with length counting MI; FP = crc(prefix, length counting FP) ^ 0x5354554e, last; final length == len-20",
           bound="empty attribute list; hmac_sha1/crc32 recording stubs", module=SM, timeout=600),
+        K("hmac_sha1 wrapper", "c16_hmac_sha1_wrapper", "quick", "bounded", ["hmac_sha1"],
+          "returns the 20-byte HMAC of exactly the given data under exactly the given key (the function the encode obligations replace by a recording stub)",
+          bound="5-byte key, 7-byte data (symbolic); hmac substitute", module=SM, timeout=600),
         K("encode: plain length field", "c16_encode_plain_length", "quick", "bounded", ["encode_stun_message", "append_attribute"],
           "no MI/FP: length == len-20, LIFETIME layout", bound="1 LIFETIME attribute", module=SM, timeout=600),
         K("decode: Binding success + XOR-MAPPED-ADDRESS v4 (literal framing)", "c16_decode_xor_mapped_v4_literal", "quick", "bounded", ["decode_stun_message", "parse_xor_address"],
